@@ -33,12 +33,14 @@ def _run_variant(args):
     sys.dont_write_bytecode = True
     repo = os.environ.get("VK_REPO", "/repo")
     overlay = {}
-    for rel, old, new in edits:
+    for ed in edits:
+        rel, old, new = ed[:3]
+        every = len(ed) > 3 and ed[3] == "all"
         base = overlay.get(rel)
         if base is None:
-            s = _apply(repo, rel, old, new)
+            s = _apply(repo, rel, old, new, count=0 if every else 1)
         else:
-            s = base.replace(old, new, 1) if base.count(old) == 1 else None
+            s = base.replace(old, new) if (every and old in base) else (base.replace(old, new, 1) if base.count(old) == 1 else None)
         if s is None:
             return (kind, name, "skipped", "anchor text not present in the current tree")
         overlay[rel] = s
